@@ -976,7 +976,11 @@ def generate_chains(rng: random.Random, profile: Dict[str, Any]) -> Dict[str, An
             if r < 0.4:
                 inputs.append(gen.pick_input(rng, corp))
             elif r < 0.85:
-                inputs.append(gen.gen_module(rng, process_dependent=rng.random() < 0.3, special=True))
+                kind = rng.choice(gen.SPECIAL_BLOCKS + (None, None))
+                x = gen.gen_module(rng, special=True, force=kind)
+                inputs.append(x)
+                if kind == "deep":
+                    inputs.append(x)  # the same text under a second line length
             else:
                 inputs.append(rng.choice(gen.STATIC_TREE_CLIENTS))
     ops: List[Dict[str, Any]] = []
@@ -990,8 +994,10 @@ def generate_chains(rng: random.Random, profile: Dict[str, Any]) -> Dict[str, An
             o["keep_imports"] = True
         if rng.random() < 0.2:
             o["preserve"] = sorted(gen.some_names(rng, x))
-        if rng.random() < (0.5 if "def deep_" in x else 0.15):
-            o["max_line_length"] = rng.choice([60, 60, 72, 79, 120])
+        if "def deep_" in x:
+            o["max_line_length"] = rng.choice([60, 72, 79, 100, 120])
+        elif rng.random() < 0.15:
+            o["max_line_length"] = rng.choice([60, 72, 79, 120])
         opts.append(o)
     order = [ci for ci in range(len(inputs)) for _ in range(6)]
     if profile.get("index") is None:
@@ -1070,7 +1076,7 @@ def shrink(case: Dict[str, Any], vclass: str, still_fails) -> Dict[str, Any]:
                     c["chains"].append([remap[i] for i in ch])
         return c
 
-    kept = C.ddmin(idx, lambda k: still_fails(with_ops(k)), max_tests=80)
+    kept = C.ddmin(idx, lambda k: still_fails(with_ops(k)), max_tests=30 if case.get("chains") else 60)
     case = with_ops(kept)
     for i, op in enumerate(case["ops"]):
         if op.get("abort"):
